@@ -12,7 +12,7 @@ use crate::parser::{
     CsrImm, HasRegisterSets, InstructionProperties, LabelString, LabelStringToken,
     RegisterProperties,
 };
-use crate::parser::{ParserNode, Register};
+use crate::parser::{LoadType, ParserNode, Register, StoreType};
 use crate::passes::{CfgError, GenerationPass};
 
 use super::memory_location::MemoryLocation;
@@ -191,6 +191,7 @@ impl GenerationPass for AvailableValuePass {
                     } else if let Some((memory, value)) = node.gen_memory_value() {
                         map.insert(memory, value_as_of_now(value, &node.reg_values_in()));
                     }
+                    rule_forget_overwritten_stack(&node.node(), &mut map, &node.reg_values_in());
                     map
                 };
 
@@ -262,6 +263,43 @@ fn rule_zero_to_const(
                 }
             }
             _ => {}
+        }
+    }
+}
+
+/// Forget stack slots whose contents are (partly) overwritten by this node
+/// without becoming known: a byte or half-word store into a slot, or a word
+/// store that overlaps a neighbouring slot.
+fn rule_forget_overwritten_stack(
+    node: &ParserNode,
+    memory_out: &mut AvailableValueMap<MemoryLocation>,
+    available_in: &AvailableValueMap<Register>,
+) {
+    let stack_offset = available_in.stack_offset();
+    if let ParserNode::Store(store) = node {
+        if store.rs1.get().is_stack_pointer() {
+            let size = match store.inst.get() {
+                StoreType::Sb => 1,
+                StoreType::Sh => 2,
+                StoreType::Sw => 4,
+            };
+            match stack_offset {
+                Some(curr_stack) => {
+                    let start = i64::from(curr_stack) + i64::from(store.imm.get().value());
+                    let whole_slot = size == 4;
+                    memory_out.retain(|location, _| match location {
+                        MemoryLocation::StackOffset(slot) => {
+                            let slot = i64::from(*slot);
+                            let overlaps = slot < start + size && start < slot + 4;
+                            !overlaps || (whole_slot && slot == start)
+                        }
+                        _ => true,
+                    });
+                }
+                // We do not know which slot is written
+                None => memory_out
+                    .retain(|location, _| !matches!(location, MemoryLocation::StackOffset(_))),
+            }
         }
     }
 }
@@ -360,10 +398,16 @@ fn rule_perform_math_ops(
 /// the stack contains a value at the offset, then store the value from the
 /// stack into the register.
 fn rule_value_from_stack(
-    node: &impl InstructionProperties,
+    node: &ParserNode,
     available_out: &mut AvailableValueMap<Register>,
     memory_in: &AvailableValueMap<MemoryLocation>,
 ) {
+    // A byte or half-word load does not read the whole value of a slot
+    if let ParserNode::Load(load) = node {
+        if !matches!(load.inst.get(), LoadType::Lw | LoadType::Lwu) {
+            return;
+        }
+    }
     if let Some(reg) = node.writes_to() {
         if let Some(AvailableValue::ValueInCsr(csr)) = available_out.get(reg.get()) {
             if let Some(csr_value) = memory_in.get(&MemoryLocation::CsrRegister(*csr)) {
